@@ -558,14 +558,17 @@ class QuorumSensing:
         prior_block = 0.5
 
         # Update belief based on each vote
+        # A vote is evidence for its own hypothesis and against the other one
         for vote in permit_votes:
             # Higher confidence = more influence
             likelihood = 0.5 + (vote.confidence * 0.4)  # 0.5-0.9
             prior_permit = self._bayesian_update(prior_permit, likelihood, vote.weight)
+            prior_block = self._bayesian_update(prior_block, 1 - likelihood, vote.weight)
 
         for vote in block_votes:
             likelihood = 0.5 + (vote.confidence * 0.4)
             prior_block = self._bayesian_update(prior_block, likelihood, vote.weight)
+            prior_permit = self._bayesian_update(prior_permit, 1 - likelihood, vote.weight)
 
         # Normalize
         total = prior_permit + prior_block
@@ -594,7 +597,7 @@ class QuorumSensing:
     def _bayesian_update(self, prior: float, likelihood: float, weight: float) -> float:
         """Apply Bayesian update with weighted evidence."""
         # Weighted likelihood based on agent weight
-        adjusted_likelihood = 0.5 + (likelihood - 0.5) * weight
+        adjusted_likelihood = min(0.99, max(0.01, 0.5 + (likelihood - 0.5) * weight))
 
         # Bayes' theorem: P(H|E) = P(E|H) * P(H) / P(E)
         # Simplified: just multiply prior by likelihood
